@@ -66,7 +66,8 @@ def run(repo, tier):
                  'pc-relative immediates equals the ISA (C01/C02 summaries).')
     rep.trusted_base = ['CPython ast', 'bbverif.pathwalk / layout size algebra', 'bbverif.bitdom encoder summaries', 'ISA oracle tables']
     rep.not_decided = ['whether a near/far or li size decision taken on pessimistic label offsets is still the right one after labels moved '
-                       '(value-dependent; always a safe choice for pure %offset targets because L2 only shrinks distances)']
+                       '(value-dependent; always a safe choice for pure %offset targets because L2 only shrinks distances; a compressed form '
+                       'without immediate chosen on such a value is decided by R3.final-immediate)']
     LB.check_L1(rep, facts, 'L1.establish')
     for compress in (False, True):
         steps = LR.class_flow(facts, compress)
@@ -81,6 +82,8 @@ def run(repo, tier):
     check_target_wrapping(rep, facts, 'R3.target')
     IS.check_lo_pairing(rep, facts, 'R3.lo-width', 'R3.guard-fits', 'R3.hi-lo-pair')
     IS.check_auipc(rep, facts, 'R3.auipc-adjust', 'R3.auipc-sibling')
+    from ..comprel import CompRel, check_final_immediates
+    check_final_immediates(rep, CompRel(facts), 'R3.final-immediate')
     have = [m for m in PC_RELATIVE if m in facts.instructions()]
     encprops.check_layout(rep, facts, have, 'R3.imm-layout')
     pa = LR.pass_analysis(facts, 'transform_compressible')
@@ -92,5 +95,5 @@ def run(repo, tier):
     rep.floor('label-target parse paths', 2)
     rep.floor('pc-relative pseudo expansions', 12)
     rep.floor('%lo constructions examined', 5)
-    rep.floor('item-immediate evaluation sites', 5)
+    rep.floor('item-immediate evaluation sites', 2)
     return rep
